@@ -26,6 +26,7 @@ import Hw.Topo.StageUnique
 import Hw.Topo.RenderCover
 import Hw.Topo.StageSetsMerge
 import Hw.Topo.RestrictMerge
+import Hw.Topo.StageNuma
 import Hw.Topo.RenderTop
 namespace Hw.Props.C01
 open Hw.Topo
@@ -691,6 +692,15 @@ example : filterOf exKsFilters tPU ≠ Hw.Gen.Restrict.filterKeepStructure ∧ f
     puLeafT (keepStructure exKsFilters exKs) = true := by decide +kernel
 /-- the key hypothesis of C01_pipeline_no_new_object for the keys used here -/
 example : (∀ o co : RObj, (absorb o co).gp = co.gp) ∧ (∀ o co : RObj, tyOs (absorb o co) = tyOs co) := ⟨fun _ _ => rfl, fun _ _ => rfl⟩
+
+/-- **numa-exists for the composed pipeline**: a NUMA node with a non-empty nodeset in the (typed, normal-rooted) tree handed to `remove_empty`
+is neither removed by `remove_empty` nor by level merging, so the NUMA level of the final render is not empty -/
+theorem C01_pipeline_numa_exists (filters : List Nat) (hdr : Hdr) (ex : RObj → Extra) (t0 t1 : Tree) (hty : typedT t0 = true)
+    (hr : isNormal t0.obj.type = true) (h1 : removeEmpty t0 = some t1) (hn : ∃ x ∈ objsNM t0, x.type = tNUMA ∧ x.nodeset ≠ 0) :
+    topClause "numa-exists" (render (keepStructure filters t1) hdr ex) (mkAux (render (keepStructure filters t1) hdr ex)) = true :=
+  pipeline_numa_exists filters hdr ex t0 t1 hty hr h1 hn
+example : typedT exKs = true ∧ isNormal exKs.obj.type = true ∧ (removeEmpty exKs).isSome ∧
+    (∃ x ∈ objsNM exKs, x.type = tNUMA ∧ x.nodeset ≠ 0) := by decide +kernel
 
 end Stages
 
